@@ -244,7 +244,9 @@ fn gen_base(r: &mut Rng) -> (String, Vec<u8>) {
         9 => ("asset".to_string(), asset_file(r)),
         _ => {
             // the repository's own sample files
-            let samples: [(&str, &str); 10] = [
+            let samples: [(&str, &str); 12] = [
+                ("FE14Aset_Test.bin", "aset"),
+                ("ArcTest1.bin", "bin_le"),
                 ("ArcTest.arc", "arc"),
                 ("ArchiveTest_Mixed1.bin", "bin_le"),
                 ("ArchiveTest_Mixed2.bin", "bin_le"),
